@@ -8,22 +8,25 @@
      (3) calls it on permutations of each input list (coarse-first, fine-first, two seeded shuffles) and on the list with
          entries repeated (every entry twice in place, one entry three times in place, the list appended to itself),
      (4) compares every input slice byte for byte with the copy after each call,
-   and reports   VL [VB inputs_unmodified; VL repeats; VL permuted; VL duplicated]   (or VS "skipped:..." when the call would be
-   too large; the shared shrinker may propose such calls).
+   and reports   VL [VB inputs_unmodified; VL repeats; VL permuted; VL duplicated; VZ refused_permuted; VZ refused_duplicated]
+   (or VS "skipped:too-large" when a size guard refuses the first call: only the shared shrinker proposes such calls, the generators
+   draw again; the entry answers class "skipped" only when its own estimate confirms the excess, otherwise bad-case).
 
    One result is  VE _  (the call returned an error)  or  VL items,  an item being  VS id  or a group  VL [VS header; VL [VS pair…]]
    (key conversions: header = output zooms and parameters of the group).  A boolean answer b is the one-item list [VS "true"/"false"].
 
    prop (check_det, proved sound below):
-     - the flag is true;
-     - the 8 repeats are equal as multisets of canonical items (a group's canonical form: header + its sorted pairs);
+     - the flag is true; there are at least two repeats; when an input list has two or more entries there is at least one permuted
+       and one duplicated run;
+     - the 9 repeats are equal as multisets of canonical items (a group's canonical form: header + its sorted pairs);
      - every permuted / duplicated run has the same SET of flattened members (header|pair for groups: which group a pair lands in
        legitimately depends on the input order, see DeterminismMore.run_groups_depend_on_order) as the first repeat;
        for Difference / Intersect the duplicated runs legitimately keep the multiplicity of the list they filter — sets only;
      - when the operation is documented as de-duplicated: no flattened member twice in any result;
      - error results must be errors in all runs.
-   corr: the first repeat has the members of the executable model's result where a finished model exists (zoom change, merge,
-     neighbourhoods, expansion, set helpers, overlap); otherwise corr = prop. *)
+   corr: the first repeat has the members of the executable model's result where a model is run (15 entries: zoom change, merge,
+     neighbourhoods, Get6/8/26, expansion, set helpers, overlap); for the other 12 (line, corridor, key and tile conversions) no model is
+     run here and corr = prop. *)
 From Coq Require Import ZArith String List Bool Permutation.
 From SID Require Import Base Str Ids Wire ZoomCore Shift ChangeZoom Merge MergeApi Neighbour Notation SetOps Overlap Determinism.
 Import ListNotations.
@@ -80,21 +83,24 @@ Proof. destruct r1, r2; reflexivity. Qed.
 
 Definition decode_all (l : list val) : option (list res) := all_opt (map decode l).
 
-Definition check_runs (nodup : bool) (un : bool) (reps perms dups : list res) : bool :=
+(* need = some input list has two or more entries: then at least one permuted and one duplicated run must have been made *)
+Definition nonempty {A} (l : list A) : bool := match l with [] => false | _ => true end.
+Definition check_runs (nodup need : bool) (un : bool) (reps perms dups : list res) : bool :=
   match reps with
   | [] => false
   | r0 :: rs =>
       let b0 := bag_nf r0 in
       let s0 := set_nf r0 in
-      un && forallb (fun r => nf_eqb b0 (bag_nf r)) rs && forallb (fun r => nf_eqb s0 (set_nf r)) (perms ++ dups)
+      un && nonempty rs && (if need then nonempty perms && nonempty dups else true) && forallb (fun r => nf_eqb b0 (bag_nf r)) rs && forallb (fun r => nf_eqb s0 (set_nf r)) (perms ++ dups)
          && (if nodup then forallb res_nodup (reps ++ perms ++ dups) else true)
   end.
 
-Definition check_det (nodup : bool) (obs : val) : bool :=
+(* the two counters at the end report the permuted / duplicated runs that a size guard of the harness refused (visible in replays) *)
+Definition check_det (nodup need : bool) (obs : val) : bool :=
   match obs with
-  | VL [VB un; VL reps; VL perms; VL dups] =>
+  | VL [VB un; VL reps; VL perms; VL dups; VZ _; VZ _] =>
       match decode_all reps, decode_all perms, decode_all dups with
-      | Some r, Some p, Some d => check_runs nodup un r p d
+      | Some r, Some p, Some d => check_runs nodup need un r p d
       | _, _, _ => false
       end
   | _ => false
@@ -107,8 +113,8 @@ Definition res_equal_sets (r1 r2 : res) : Prop :=
   match r1, r2 with RErr, RErr => True | ROk f1 _, ROk f2 _ => forall s, In s f1 <-> In s f2 | _, _ => False end.
 Definition res_NoDup (r : res) : Prop := match r with RErr => True | ROk f _ => NoDup f end.
 
-Definition det_spec (nodup un : bool) (reps perms dups : list res) : Prop :=
-  exists r0 rs, reps = r0 :: rs /\ un = true /\
+Definition det_spec (nodup need un : bool) (reps perms dups : list res) : Prop :=
+  exists r0 rs, reps = r0 :: rs /\ un = true /\ rs <> [] /\ (need = true -> perms <> [] /\ dups <> []) /\
     (forall r, In r rs -> res_equal_bags r0 r) /\
     (forall r, In r (perms ++ dups) -> res_equal_sets r0 r) /\
     (nodup = true -> forall r, In r (reps ++ perms ++ dups) -> res_NoDup r).
@@ -120,37 +126,46 @@ Proof. destruct r1, r2; cbn; try discriminate; auto. apply same_set_sound. Qed.
 Lemma res_nodup_sound r : res_nodup r = true -> res_NoDup r.
 Proof. destruct r; cbn; auto. apply nodup_chk_sound. Qed.
 
-Theorem check_runs_sound nodup un reps perms dups : check_runs nodup un reps perms dups = true -> det_spec nodup un reps perms dups.
+Lemma nonempty_spec {A} (l : list A) : nonempty l = true -> l <> [].
+Proof. destruct l; [discriminate|discriminate]. Qed.
+Theorem check_runs_sound nodup need un reps perms dups : check_runs nodup need un reps perms dups = true -> det_spec nodup need un reps perms dups.
 Proof.
   unfold check_runs, det_spec. destruct reps as [|r0 rs]; [discriminate|]. cbv zeta. rewrite !andb_true_iff, !forallb_forall.
-  intros [[[U B] S] N]. exists r0, rs. split; [reflexivity|]. split; [exact U|]. split; [|split].
+  intros [[[[[U R] Nd] B] S] N]. exists r0, rs. split; [reflexivity|]. split; [exact U|]. split; [now apply nonempty_spec|].
+  split; [intros ->; apply andb_true_iff in Nd; destruct Nd; split; now apply nonempty_spec|]. split; [|split].
   - intros r Hr. apply res_same_bag_sound. rewrite <- bag_nf_eqb. apply B, Hr.
   - intros r Hr. apply res_same_set_sound. rewrite <- set_nf_eqb. apply S, Hr.
   - intros -> r Hr. rewrite forallb_forall in N. apply res_nodup_sound, N, Hr.
 Qed.
 (* the dispatch verdict on wire values *)
-Theorem check_det_sound nodup obs : check_det nodup obs = true ->
-  exists un reps perms dups r p d, obs = VL [VB un; VL reps; VL perms; VL dups] /\
-    decode_all reps = Some r /\ decode_all perms = Some p /\ decode_all dups = Some d /\ det_spec nodup un r p d.
+Theorem check_det_sound nodup need obs : check_det nodup need obs = true ->
+  exists un reps perms dups dp dd r p d, obs = VL [VB un; VL reps; VL perms; VL dups; VZ dp; VZ dd] /\
+    decode_all reps = Some r /\ decode_all perms = Some p /\ decode_all dups = Some d /\ det_spec nodup need un r p d.
 Proof.
   unfold check_det. destruct obs as [| | | |l| | | |]; try discriminate.
   destruct l as [|a l]; [discriminate|]. destruct a as [| | |un| | | | |]; try discriminate.
   destruct l as [|a l]; [discriminate|]. destruct a as [| | | |reps| | | |]; try discriminate.
   destruct l as [|a l]; [discriminate|]. destruct a as [| | | |perms| | | |]; try discriminate.
   destruct l as [|a l]; [discriminate|]. destruct a as [| | | |dups| | | |]; try discriminate.
+  destruct l as [|a l]; [discriminate|]. destruct a as [dp| | | | | | | |]; try discriminate.
+  destruct l as [|a l]; [discriminate|]. destruct a as [dd| | | | | | | |]; try discriminate.
   destruct l as [|a l]; [|discriminate].
   destruct (decode_all reps) as [r|] eqn:E1; [|discriminate]. destruct (decode_all perms) as [p|] eqn:E2; [|discriminate].
   destruct (decode_all dups) as [d|] eqn:E3; [|discriminate]. intros C.
-  exists un, reps, perms, dups, r, p, d. repeat split; try assumption. now apply check_runs_sound.
+  exists un, reps, perms, dups, dp, dd, r, p, d. repeat split; try assumption. now apply check_runs_sound.
 Qed.
 (* the checker accepts what the theorems of Determinism.v describe: identical duplicate-free runs *)
-Example check_runs_accepts : check_runs true true [ROk ["a"; "b"] ["a"; "b"]; ROk ["b"; "a"] ["b"; "a"]] [ROk ["b"; "a"] ["b"; "a"]] [ROk ["a"; "b"] ["a"; "b"]] = true.
+Example check_runs_accepts : check_runs true true true [ROk ["a"; "b"] ["a"; "b"]; ROk ["b"; "a"] ["b"; "a"]] [ROk ["b"; "a"] ["b"; "a"]] [ROk ["a"; "b"] ["a"; "b"]] = true.
 Proof. vm_compute. reflexivity. Qed.
-Example check_runs_rejects_other_set : check_runs false true [ROk ["a"; "b"] ["a"; "b"]] [ROk ["a"] ["a"]] [] = false.
+Example check_runs_rejects_other_set : check_runs false false true [ROk ["a"; "b"] ["a"; "b"]; ROk ["a"; "b"] ["a"; "b"]] [ROk ["a"] ["a"]] [] = false.
 Proof. vm_compute. reflexivity. Qed.
-Example check_runs_rejects_duplicate : check_runs true true [ROk ["a"; "a"] ["a"; "a"]] [] [] = false.
+Example check_runs_rejects_duplicate : check_runs true false true [ROk ["a"; "a"] ["a"; "a"]; ROk ["a"; "a"] ["a"; "a"]] [] [] = false.
 Proof. vm_compute. reflexivity. Qed.
-Example check_runs_rejects_modified_input : check_runs false false [ROk ["a"] ["a"]] [] [] = false.
+Example check_runs_accepts_without_nodup : check_runs false false true [ROk ["a"; "a"] ["a"; "a"]; ROk ["a"; "a"] ["a"; "a"]] [] [] = true.
+Proof. vm_compute. reflexivity. Qed.
+Example check_runs_rejects_missing_variants : check_runs false true true [ROk ["a"] ["a"]; ROk ["a"] ["a"]] [] [] = false.
+Proof. vm_compute. reflexivity. Qed.
+Example check_runs_rejects_modified_input : check_runs false false false [ROk ["a"] ["a"]; ROk ["a"] ["a"]] [] [] = false.
 Proof. vm_compute. reflexivity. Qed.
 
 (* ------------------------------------------------------------------------------------------------ models for corr *)
@@ -240,45 +255,103 @@ Definition model_of (fn : string) (a : list val) : option res :=
   else None.
 
 (* ------------------------------------------------------------------------------------------------ the entries *)
-Definition is_skip (obs : val) : bool := match obs with VS s => prefix "skipped" s | _ => false end.
+(* A refused call.  The invoker answers VS "skipped:too-large" when a size guard refused the FIRST call (the generators draw again in
+   that case, so only the shared shrinker produces such calls).  The entry recomputes the estimate where the model side has one and
+   answers class "skipped" only when it confirms the excess; any other string (unconfirmed skip, "builder-panic", "bad-shape") is a
+   bad case: never a pass. *)
+Definition skip_marker : string := "skipped:too-large".
+Definition big40 (z : Z) : bool := (2 ^ 40 <? Z.abs z)%Z.
+Definition big_eid (i : eid) : bool := big40 (eh i) || big40 (ex i) || big40 (ey i) || big40 (ev i) || big40 (ef i).
+Definition cost_limit : Z := 3000.
+Definition oversize (fn : string) (a : list val) : bool :=
+  if String.eqb fn "ChangeExtendedSpatialIdsZoom" then
+    match a with
+    | [l; VZ H; VZ V] => match as_LS l with
+                         | Some sl => match parse_all sl with
+                                      | Some es => check_zoom H && check_zoom V && (existsb big_eid es || (cost_limit <? est es H V)%Z)
+                                      | None => false
+                                      end
+                         | None => false
+                         end
+    | _ => false
+    end
+  else if String.eqb fn "ChangeSpatialIdsZoom" then
+    match a with
+    | [l; VZ z] => match as_LS l with
+                   | Some sl => match map_opt ChangeZoom.parse_sid sl with
+                                | Some es => check_zoom z && (existsb big_eid es || (cost_limit <? est es z z)%Z)
+                                | None => false
+                                end
+                   | None => false
+                   end
+    | _ => false
+    end
+  else if String.eqb fn "MergeExtendedSpatialIds" then
+    match a with [l; VZ H; VZ V] => match as_LS l with Some sl => negb (runnable sl H V) | None => false end | _ => false end
+  else if String.eqb fn "MergeSpatialIds" then
+    match a with
+    | [l; VZ z] => match as_LS l with
+                   | Some sl => match sids_to_eids sl with Ok e => negb (runnable e z z) | Err => false end
+                   | None => false
+                   end
+    | _ => false
+    end
+  else if String.eqb fn "GetNspatialIdsAroundVoxcels" then
+    match a with
+    | [l; VZ H; VZ V] => match as_LS l with
+                         | Some sl => (4 <? H)%Z || (4 <? V)%Z ||
+                                      ((0 <=? H)%Z && (0 <=? V)%Z && (cost_limit <? Z.of_nat (List.length sl) * ((2 * H + 1) * (2 * H + 1) * (2 * V + 1)))%Z)
+                         | None => false
+                         end
+    | _ => false
+    end
+  else false.
+
 Definition first_rep (obs : val) : option res :=
   match obs with VL (_ :: VL (r :: _) :: _) => decode r | _ => None end.
 Definition res_val (r : res) : val := match r with RErr => VE VNil | ROk f _ => of_LS f end.
 
+(* some permutable list argument has two or more entries *)
+Definition long_list (v : val) : bool := match as_L v with Some (_ :: _ :: _) => true | _ => false end.
+Definition needs_variants (lists : list nat) (fargs : list val) : bool :=
+  existsb (fun i => match nth_error fargs i with Some v => long_list v | None => false end) lists.
+
 (* args = [VL fargs; VL decoys; VZ seed] *)
-Definition d_det (fn : string) (nodup : bool) (args : list val) (obs : val) : verdict :=
+Definition d_det (fn : string) (nodup : bool) (lists : list nat) (args : list val) (obs : val) : verdict :=
   match args with
   | [VL fargs; VL _; VZ _] =>
-      if is_skip obs then mkv true true "-" VNil
-      else
-        let p := check_det nodup obs in
+      match obs with
+      | VS s => if String.eqb s skip_marker && oversize fn fargs then mkv true true "skipped" VNil else bad_case
+      | _ =>
+        let p := check_det nodup (needs_variants lists fargs) obs in
         match model_of fn fargs, first_rep obs with
         | Some m, Some r0 => mkv (res_same_set m r0) p "-" (res_val m)
         | Some m, None => mkv false p "-" (res_val m)
         | None, _ => mkv p p "-" VNil
         end
+      end
   | _ => bad_case
   end.
 
-Definition det (fn : string) (nodup : bool) : entry := (("Det:" ++ fn)%string, fun _ => d_det fn nodup).
+Definition det (fn : string) (nodup : bool) (lists : list nat) : entry := (("Det:" ++ fn)%string, fun _ => d_det fn nodup lists).
 
 Definition table_C16 : table :=
   [ (* documented as de-duplicated / a set ("IDの重複は解消された形で返却される", Unique at the end, a map used as a set) *)
-    det "ChangeExtendedSpatialIdsZoom" true; det "ChangeSpatialIdsZoom" true;
-    det "MergeExtendedSpatialIds" true; det "MergeSpatialIds" true;
-    det "GetExtendedSpatialIdsOnLine" true; det "GetSpatialIdsOnLine" true;
-    det "GetExtendedSpatialIdsWithinRadiusOfLine" true;
-    det "GetNspatialIdsAroundVoxcels" true;
-    det "ConvertExtendedSpatialIDsToQuadkeysAndVerticalIDs" true; det "ConvertExtendedSpatialIDsToQuadkeysAndAltitudekeys" true;
-    det "ConvertSpatialIDsToQuadkeysAndVerticalIDs" true;
-    det "ConvertQuadkeysAndVerticalIDsToExtendedSpatialIDs" true; det "ConvertQuadkeysAndVerticalIDsToSpatialIDs" true;
-    det "ConvertTileXYZsToExtendedSpatialIDs" true;
-    det "ConvertExtendedSpatialIDToSpatialIDs" true;
-    det "Unique" true; det "Union" true;
+    det "ChangeExtendedSpatialIdsZoom" true [0%nat]; det "ChangeSpatialIdsZoom" true [0%nat];
+    det "MergeExtendedSpatialIds" true [0%nat]; det "MergeSpatialIds" true [0%nat];
+    det "GetExtendedSpatialIdsOnLine" true []; det "GetSpatialIdsOnLine" true [];
+    det "GetExtendedSpatialIdsWithinRadiusOfLine" true [];
+    det "GetNspatialIdsAroundVoxcels" true [0%nat];
+    det "ConvertExtendedSpatialIDsToQuadkeysAndVerticalIDs" true [0%nat]; det "ConvertExtendedSpatialIDsToQuadkeysAndAltitudekeys" true [0%nat];
+    det "ConvertSpatialIDsToQuadkeysAndVerticalIDs" true [0%nat];
+    det "ConvertQuadkeysAndVerticalIDsToExtendedSpatialIDs" true [0%nat]; det "ConvertQuadkeysAndVerticalIDsToSpatialIDs" true [0%nat];
+    det "ConvertTileXYZsToExtendedSpatialIDs" true [0%nat];
+    det "ConvertExtendedSpatialIDToSpatialIDs" true [];
+    det "Unique" true [0%nat]; det "Union" true [0%nat; 1%nat];
     (* not documented as de-duplicated: fixed-size stencils (members coincide on a grid narrower than the stencil), expansions of
        several tiles, filters that keep the multiplicity of one argument, boolean answers *)
-    det "Get6spatialIdsAdjacentToFaces" false; det "Get8spatialIdsAroundHorizontal" false; det "Get26spatialIdsAroundVoxel" false;
-    det "ConvertTileXYZsToSpatialIDs" false;
-    det "Difference" false; det "Intersect" false;
-    det "CheckExtendedSpatialIdsOverlap" false; det "CheckExtendedSpatialIdsArrayOverlap" false;
-    det "CheckSpatialIdsOverlap" false; det "CheckSpatialIdsArrayOverlap" false ].
+    det "Get6spatialIdsAdjacentToFaces" false []; det "Get8spatialIdsAroundHorizontal" false []; det "Get26spatialIdsAroundVoxel" false [];
+    det "ConvertTileXYZsToSpatialIDs" false [0%nat];
+    det "Difference" false [0%nat; 1%nat]; det "Intersect" false [0%nat; 1%nat];
+    det "CheckExtendedSpatialIdsOverlap" false []; det "CheckExtendedSpatialIdsArrayOverlap" false [0%nat; 1%nat];
+    det "CheckSpatialIdsOverlap" false []; det "CheckSpatialIdsArrayOverlap" false [0%nat; 1%nat] ].
